@@ -634,6 +634,28 @@ def _r5(run, st, w, cfg, gnode, gcall, loop, handlers, exits, is_flag_read, fact
         for c in ast.walk(h):
             if isinstance(c, ast.Call) and callee_attr(c) in ("get", "get_nowait") and c is not gcall:
                 drain = True
+    # which flag value guards the exit?  a fresh read inside the handler, or the value sampled before the receive
+    pre_locals = set()
+    for n, c in flag_reads:
+        if n in pre and isinstance(n.ast, ast.Assign):
+            pre_locals |= {t.id for t in n.ast.targets if isinstance(t, ast.Name)}
+    exit_uses_fresh = False
+    exit_uses_pre = False
+    for x in exits:
+        if x is loop:
+            continue
+        for test, pol in _conditions_of(w.node, x):
+            if any(isinstance(c, ast.Call) and is_flag_read(c) for c in ast.walk(test)):
+                exit_uses_fresh = True
+            if pre_locals & {nn.id for nn in ast.walk(test) if isinstance(nn, ast.Name)}:
+                exit_uses_pre = True
+    if pre and exit_uses_fresh and not exit_uses_pre and not drain:
+        n = post[0] if post else pre[0]
+        run.violated("C03.R5", w, n.ast,
+                     "the flag is sampled before the receive, but the loop exit is guarded by a fresh read at line %d, after the get at "
+                     "line %d timed out: items enqueued and flushed in that window are lost when every worker is in it (check-then-act)"
+                     % (n.line, gcall.lineno), kind="flag-read-after-get", **facts)
+        return
     if post and not pre and not drain:
         n = post[0]
         run.violated("C03.R5", w, n.ast,
